@@ -27,6 +27,11 @@ pub(crate) fn impl_inverse_uint_scale(n: &BigUint, scale: i64, ctx: &Context) ->
     // and that convergence can be calculated
     #[cfg(bigdecimal_verif)]
     let mut verif_iteration_count: u32 = 0;
+    // verification hook: magnitude (digits - scale) of the first iterate; a diverging
+    // iteration squares its magnitude every step and would exhaust memory long
+    // before an iteration cap is reached
+    #[cfg(bigdecimal_verif)]
+    let verif_first_magnitude = running_result.digits() as i128 - running_result.scale as i128;
 
     // iterate until the working-precision value is stable too: at low precision the
     // rounded result can repeat while the iteration is still converging
@@ -37,6 +42,10 @@ pub(crate) fn impl_inverse_uint_scale(n: &BigUint, scale: i64, ctx: &Context) ->
             verif_iteration_count += 1;
             if verif_iteration_count > 2000 {
                 panic!("bigdecimal_verif: inverse iteration cap exceeded");
+            }
+            let verif_magnitude = running_result.digits() as i128 - running_result.scale as i128;
+            if (verif_magnitude - verif_first_magnitude).abs() > 8 {
+                panic!("bigdecimal_verif: inverse iteration diverged");
             }
         }
 
